@@ -24,6 +24,10 @@ CHECKS = {
                 note="Trusted: lxml; the documented coordinate conventions. 'Random large' numbers are not sampled."),
     "C17": dict(tech=MC, ref="5/C17", text="BFS over compositions of transpose / rstrip / optimize_width / set_span / del_span / csv round trip from every run-length encoding of the seed grid plus ragged, styled, spanned and repeated-last-row seeds; the algebraic law of each operation (exact transposed matrix, involution, idempotence, values keep coordinates, span covers exactly the area, inverse pair, csv values) is checked after every step on an independent lxml reading.",
                 note="Trusted: lxml; the reading of each law stated in evidence assumptions (transpose compared after trimming trailing empties; csv export without any delimiter is outside import_from_csv's documented autodetection)."),
+    "C05": dict(tech=ENUM, ref="5/C05", text="Every string over an alphabet with space, tab, line feed, XML-special and non-ASCII characters up to the length bound, for Paragraph, Header and Span, built by the constructor and by every split into successive append() calls of bounded piece size: inner_text, re-parsed text and an independent ODF 6.1.2 white-space interpreter must all give the string back.",
+                note="Trusted: lxml; the strict reading of ODF 1.2 part 1 section 6.1.2 implemented in mc/models/odfws.py. 'Randomly beyond the bound' is not done."),
+    "C09": dict(tech=MC, ref="5/C09", text="Paragraph family (every sequence of <=3 inline items in white-space normal form) x every insertion form (regex / offset / position / content; span, link, bookmark, reference mark, note, annotation) x every removal afterwards; depth 2 (two successive insertions of mixed kinds) on a sub-family. Oracles are independent lxml walks on the tree before the call: projection unchanged, wrapped substrings, offsets of marks, no partial edit.",
+                note="Trusted: lxml; offsets are counted in the readable text as the statement says (divergences of odfdo's own coordinate system are the open finding F21)."),
 }
 
 NOT_YET = {}
